@@ -35,6 +35,8 @@ impl PanicInfo {
 
 thread_local! {
     static LAST_PANIC: RefCell<Option<PanicInfo>> = const { RefCell::new(None) };
+    /// > 0 while the code under test runs inside `guarded`; a panic outside is the harness's own
+    static GUARD_DEPTH: std::cell::Cell<u32> = const { std::cell::Cell::new(0) };
 }
 
 pub fn install_panic_hook() {
@@ -55,13 +57,19 @@ pub fn install_panic_hook() {
         } else {
             "<non-string panic>".into()
         };
+        if GUARD_DEPTH.with(|g| g.get()) == 0 {
+            eprintln!("HARNESS PANIC (outside the code under test) at {site}: {msg}");
+        }
         LAST_PANIC.with(|p| *p.borrow_mut() = Some(PanicInfo { site, msg }));
     }));
 }
 
 pub fn guarded<T>(f: impl FnOnce() -> T) -> Result<T, PanicInfo> {
     LAST_PANIC.with(|p| *p.borrow_mut() = None);
-    match catch_unwind(AssertUnwindSafe(f)) {
+    GUARD_DEPTH.with(|g| g.set(g.get() + 1));
+    let r = catch_unwind(AssertUnwindSafe(f));
+    GUARD_DEPTH.with(|g| g.set(g.get() - 1));
+    match r {
         Ok(v) => Ok(v),
         Err(_) => Err(LAST_PANIC.with(|p| p.borrow_mut().take()).unwrap_or(PanicInfo {
             site: "?".into(),
@@ -86,7 +94,9 @@ pub fn to_signal(s: &Sig) -> Signal {
             // the only public way to obtain a Virtual signal: declare it in a donor test and
             // take it from that test's `signals`
             let text = crate::pp::ExprPrinter { redundant: false, tight: false }.print(e);
-            let src = format!("dn\ndeclare {} = {};\n0\n", s.name, text);
+            // (declared under a fixed identifier; `Signal.name` is public and set afterwards, so
+            // that lists edited by the C11 perturbations - renamed signals - stay expressible)
+            let src = format!("dn\ndeclare vdonor = {};\n0\n", text);
             let mut sigs = vec![Signal::input("dn", 1, 0)];
             for n in e.idents() {
                 if !sigs.iter().any(|x| x.name == n) {
@@ -97,7 +107,9 @@ pub fn to_signal(s: &Sig) -> Signal {
                 .expect("donor test parses")
                 .with_signals(sigs)
                 .expect("donor test binds");
-            tc.signals.last().unwrap().clone()
+            let mut sig = tc.signals.last().unwrap().clone();
+            sig.name = s.name.clone();
+            sig
         }
     }
 }
